@@ -5,10 +5,11 @@ background runs are not disturbed), runs the quick check of the property named
 by the file's prefix, reverts.  A mutant counts only if the
 pinned pytest baseline still passes with it (--baseline to verify, slow).
 
-usage: selftest/sensitivity.py [--baseline] [--budget S] [name-substring ...]
+usage: selftest/sensitivity.py [--baseline] [--budget S] [--props A,B] [name-substring ...]
 """
 import glob, os, subprocess, sys, time, json
 
+PROPS_OVERRIDE = None
 VERIF = os.path.dirname(os.path.dirname(os.path.abspath(__file__)))
 WT = '/var/tmp/fiddle-sens'
 
@@ -23,6 +24,10 @@ def main():
   budget = '25'
   if '--budget' in args:
     budget = args[args.index('--budget') + 1]
+  global PROPS_OVERRIDE
+  if '--props' in args:      # run these properties' checks instead of the filed one
+    PROPS_OVERRIDE = args[args.index('--props') + 1].split(',')
+    args.remove(','.join(PROPS_OVERRIDE))
   pats = [a for a in args if not a.startswith('--') and a != budget]
   dirs = [os.path.join(VERIF, 'selftest', 'mutants', '*.patch'),
           os.path.join(VERIF, 'seeded', '*', 'patch.diff')]
@@ -62,6 +67,8 @@ def _run_all(files, budget, baseline, rows):
     else:
       name = os.path.basename(f)[:-6]
       props = name.split('-')[0].split('+')
+    if PROPS_OVERRIDE:
+      props = PROPS_OVERRIDE
     r = sh(f'git -C {WT} apply {f}')
     if r.returncode:
       rows.append((name, 'PATCH-FAILED', r.stderr.strip()[:100]))
